@@ -450,6 +450,10 @@ func (db *SingleBucketBackend) deleteObjectLocked(bucketName, objectName string)
 	if err := db.fs.Remove(filepath.FromSlash(objectName)); err != nil && !os.IsNotExist(err) {
 		return err
 	}
+
+	// Remove the directories this delete has emptied; see MultiBucketBackend.
+	removeEmptyDirs(db.fs, path.Dir(objectName), ".")
+
 	if err := db.metaStore.deleteMeta(db.metaStore.metaPath(bucketName, objectName)); err != nil {
 		return err
 	}
